@@ -219,9 +219,11 @@ def r3_callbacks(ctx, fam):
                 'never completed', where(f))
     f = m.method(P, '_return_callback')
     construct = P + '._return_callback'
-    if f.params[1:] != ['host_id', 'sid', 'namespace', 'callback_id'] or \
-            not f.vararg:
+    # called positionally through functools.partial (the token rule checks
+    # the partial's arguments): parameters are identified by position
+    if len(f.params[1:]) != 4 or not f.vararg:
         raise AnalysisError(construct + ' signature changed: %s' % f.params)
+    host_p, sid_p, ns_p, id_p = f.params[1:]
     run = run_function(f, m)
     seen = set()
     for p in run.paths:
@@ -229,8 +231,8 @@ def r3_callbacks(ctx, fam):
             continue
         home = None
         for c in p.conds:
-            if U(run.expand(c.atom)) in ('host_id == self.host_id',
-                                         'self.host_id == host_id'):
+            if U(run.expand(c.atom)) in ('%s == self.host_id' % host_p,
+                                         'self.host_id == %s' % host_p):
                 home = c.pol
         tc = p.calls('trigger_callback')
         pb = p.calls('_publish')
@@ -243,7 +245,7 @@ def r3_callbacks(ctx, fam):
         if home:
             ctx.check(len(tc) == 1 and not pb and
                       [U(a) for a in tc[0].expr.args] ==
-                      ['sid', 'callback_id', f.vararg], construct,
+                      [sid_p, id_p, f.vararg], construct,
                       'token of this host: the callback is triggered '
                       'locally, nothing published', key='return-home',
                       where=where(f))
@@ -254,9 +256,9 @@ def r3_callbacks(ctx, fam):
                 keys = {k.value: U(v) for k, v in zip(d.keys, d.values)} \
                     if isinstance(d, ast.Dict) else {}
                 ok = keys.get('method') == "'callback'" and \
-                    keys.get('host_id') == 'host_id' and \
-                    keys.get('sid') == 'sid' and \
-                    keys.get('id') == 'callback_id' and \
+                    keys.get('host_id') == host_p and \
+                    keys.get('sid') == sid_p and \
+                    keys.get('id') == id_p and \
                     keys.get('args') == f.vararg
             ctx.check(ok, construct, 'token of another host: one '
                       "'callback' message addressed to that host with "
